@@ -80,7 +80,10 @@ class Parameter(ir.Value):
                 "initialized with a name before realization."
             )
         root = builder.root
-        self_name = self.name = root._qualify_initializer_name(self_name)  # pylint: disable=protected-access
+        # Qualify with the scope of the builder the module is called with: a sub-builder
+        # starts from its parent's scope, and a module called inside the subgraph pushes
+        # its own scope there (the root builder does not see it).
+        self_name = self.name = builder._qualify_initializer_name(self_name)  # pylint: disable=protected-access
         root.graph.initializers[self_name] = self
         self._realized = True
         return self
